@@ -10,6 +10,8 @@ import BindgenModel.Driver.C14
 import BindgenModel.Driver.C13
 import BindgenModel.Driver.C15
 import BindgenModel.Driver.C18
+import BindgenModel.Driver.C04
+import BindgenModel.Driver.C01
 /-! `bgmodel`: one request per input line, one answer per output line (lines between `ir-begin`
 and `ir-end` load an IR dump and produce no output). -/
 open BindgenModel
@@ -38,6 +40,8 @@ def dispatch (st : St) (line : String) : St × Option String :=
   | "opts" :: rest => (st, some (Driver.C13.handle rest))
   | "fmt" :: rest => (st, some (Driver.C15.handle rest))
   | "pp" :: rest => (st, some (Driver.C18.handle rest))
+  | "c04" :: rest => (st, some (Driver.C04.handle rest))
+  | "c01" :: rest => (st, some (Driver.C01.handle rest))
   | _ => (st, some "bad-op")
 
 partial def loop (h : IO.FS.Stream) (out : IO.FS.Stream) (st : St) : IO Unit := do
